@@ -67,6 +67,48 @@ META_B = {
  "C20": ("convert_value picks the curve segment with round(value / 128) instead of int(...)", "a non-default monotone curve in which a segment is followed by a steeper one"),
 }
 
+META_C = {
+ "C01": ("ModuleReader.process_SMII reads the MIDI-in channel as (x >> 1) & 0x0F (a '4-bit MIDI channel')", "a module whose midi_in_channel is exactly 16, saved and loaded"),
+ "C02": ("Module.load_options assigns loaded option values through the Option descriptor, whose __set__ clears every exclusive_of partner even when assigning False", "the alphabetically first member of an exclusive option pair is ON (MultiSynth.round_note_x, MetaModule.do_not_receive_notes_from_keyboard), then .sunsynth round trip or clone()"),
+ "C03": ("MetaModule.chnk returns FIRST_LABEL_CHNM + MAX_USER_DEFINED_CONTROLLERS - 1 (highest label chunk number) instead of the count", "a MetaModule with 96 user-defined controllers and a label on the 96th: chunk number 103 written against CHNK = 103"),
+ "C04": ("SunVoxReader.process_VERS also presets based_on_version to (1, 7, 0, 0) (the fall-back after the chunk loop is removed)", "a file whose BVER chunk comes before VERS: BVER's value is overwritten"),
+ "C05": ("Project.chunks drops trailing -1 entries from links/link_slots before writing -- on the live module lists (missing copy)", "a module whose in_links ends in a freed slot (connect A, B; disconnect B), then save: the object's link tables change"),
+ "C06": ("Sampler.Envelope.chunks skips an envelope that equals the instrument's initial values; finalize_load then treats the absent volume-envelope chunk as an old-format file and overwrites volume AND panning envelopes from the lossy legacy area", "a sampler whose volume envelope is at its defaults and whose panning envelope is edited to a y that is not a multiple of 512 (or > 12 points)"),
+ "C07": ("Project.connect resets the `disconnect` flag once per source instead of once per pair", "one request whose destination list has a ~module followed by plain modules: the later ones are disconnected instead of connected"),
+ "C08": ("Project.chunks writes SLNK only `if any(links)` (truthiness: module index 0 is falsy)", "the Output used as a link source and being the only entry of the target's in-link table: the edge is gone after save/load"),
+ "C09": ("Controller.set_initial returns early when the module already stores an equal value ('already validated')", "an out-of-range value stored leniently (lenient assignment, loaded file, lenient constructor), then the same value assigned in strict mode: accepted silently"),
+ "C10": ("Controller.instance_value_type resolves proxies only in the dependent-range branch and UserDefinedProxy.instance_value_type is deleted as redundant", "a MetaModule user-defined controller mapped to a negative-minimum target: get_raw / pattern_value use Range(0, 32768) while set_raw uses the adopted range"),
+ "C11": ("Module.load_options assigns loaded option values through the Option descriptor (exclusive partners are cleared even by a False assignment)", "the alphabetically first member of an exclusive pair is ON when saved/loaded or cloned"),
+ "C12": ("ModuleReader.process_SMII masks the word with 0x1E before shifting (keeps 4 of the 5 channel bits)", "midi_in_channel == 16, then save and load"),
+ "C13": ("ModuleMeta registers options in (byte, bit) order and filters exclusive_of against the partially built option table", "the first-stored member of each exclusive pair (MetaModule.receive_notes_from_keyboard, MultiSynth.round_note_x) loses its exclusive_of entry"),
+ "C14": ("Note.mod bounds test `module_index < len(modules)` became `<=`", "a note whose module field is exactly len(project.modules) + 1: IndexError instead of None"),
+ "C15": ("MappingArray.update_user_defined_controllers: `continue` for an unassigned mapping became `break`", "an unassigned user-defined slot followed by a slot mapped to a negative-minimum / enum target: later stored values are decoded with Range(0, 44100)"),
+ "C16": ("Sampler.Envelope.load_chdt clamps the point count to XI_ENV_POINTS (12)", "any sampler envelope with more than 12 points, saved and loaded"),
+ "C17": ("Sampler.is_legacy / legacy_chunks moved to class-level annotated defaults: legacy_chunks = [] is shared by all instances", "a legacy (pre-signature) sampler instrument is loaded, another sampler is loaded, the first is saved again"),
+ "C18": ("override_raise_controller_value_errors: try/finally became try/except Exception + restore after the try", "a load interrupted by a BaseException that is not an Exception (KeyboardInterrupt, SystemExit, GeneratorExit) with the flag initially True"),
+ "C19": ("set_via_fn/set_via_gen take their working array from a helper with a shared mutable default memo for deepcopy", "a failed bulk edit followed by a successful set_via_gen on the same pattern: cells the second edit does not touch carry the failed edit's leftovers"),
+ "C20": ("MultiCtl.macro refuses a repeated target module only when it directly follows its own previous entry", "a macro over (A, ...), (B, ...), (A, ...): accepted, MultiCtl left with fewer links than mappings"),
+}
+
+
+def main_c():
+    res = json.load(open("/verif/.work/seedc_results.json")) if os.path.exists("/verif/.work/seedc_results.json") else {}
+    for pid, (what, needs) in META_C.items():
+        wt = f"/tmp/mutc_{pid}"
+        d = f"/verif/seeded/{pid}c"
+        if not os.path.exists(os.path.join(wt, "patch.diff")) and not os.path.exists(d):
+            continue
+        os.makedirs(d, exist_ok=True)
+        if os.path.exists(wt):
+            shutil.copy(os.path.join(wt, "patch.diff"), os.path.join(d, "patch.diff"))
+            shutil.copy(os.path.join(wt, f"demo_{pid}.py"), os.path.join(d, f"demo_{pid}.py"))
+        meta = {"property": pid, "change": what, "needs_to_manifest": needs,
+                "origin": "independent sub-agent (third wave: told only the property text and the one-line ideas of the first two waves' changes, to avoid duplicates; nothing from /verif)",
+                "confirmed": "patch applies to /repo HEAD; existing suite with the change: 170 passed, 2 skipped; demo exits 1 with the change and 0 without (tools/seedtest.sh)",
+                "checks_run": res.get(pid, {}).get("ran", ""), "caught_by": res.get(pid, {}).get("caught_by", []), "notes": res.get(pid, {}).get("notes", "")}
+        json.dump(meta, open(os.path.join(d, "meta.json"), "w"), indent=1)
+    print("recorded", sorted(os.listdir("/verif/seeded")))
+
 
 def main_b():
     res = json.load(open("/verif/.work/seedb_results.json")) if os.path.exists("/verif/.work/seedb_results.json") else {}
@@ -108,4 +150,4 @@ def main():
     print("recorded", sorted(os.listdir("/verif/seeded")))
 
 if __name__ == "__main__":
-    main_b() if "b" in sys.argv[1:] else main()
+    main_c() if "c" in sys.argv[1:] else main_b() if "b" in sys.argv[1:] else main()
